@@ -24,6 +24,17 @@ CLAIMS = {
         "determinism as values. Trusted: ast, the class/constructor-flow resolver, the one table exemption (Scaler.dims keys).",
         "technique": "AST lint over resolved program (literal dimension designators, call-site default binding, constructor-parameter flow)",
     },
+    "C09": {
+        "text": "All covariance-type divisions of cpcca.py are classified (N-1 vs N) and must agree with the ddof of the standard deviation "
+        "that normalises correlations (CPCCA kernels and pearson_correlation separately); every transposed factor of a matrix product in "
+        "the complex-capable kernels (cpcca, whitener, statistics, fractional power, rotation) is a conjugate transpose; reconstruction "
+        "operands are conjugated, projection operands not, score norms have exactly one conjugated factor; the sample-count comparison "
+        "raises before the cross product; stage calls, dot products, norm factors and correlation calls never mix field indices "
+        "(heterogeneous patterns cross, homogeneous do not).",
+        "note": "Necessary structural clauses only. Not decided: diagonal cross-covariance, proportionality factors, SCF sums, canonical "
+        "correlations as numbers, bounds in [-1,1] as values. Trusted: numpy std default ddof=0.",
+        "technique": "denominator/ddof classification, Hermitian-transpose lint over matmul chains, conjugation parity, guard dominance, field-index abstract typing",
+    },
     "C10": {
         "text": "The nine named cross-set classes are enumerated through their constructor chains: each pins exactly the alpha "
         "pair the property fixes, does not accept alpha, drops it from the stored parameters, and resolves every method of "
@@ -33,6 +44,17 @@ CLAIMS = {
         "note": "Necessary structural clauses only. Not decided: SparsePCA(no penalty)=EOF, MCA(X,X)=EOF, Complex(real)=real, "
         "multi-set vs cross-set CCA (numerical coincidences). Trusted: constructor-flow resolver, documented domains embedding>=1, tau>=0.",
         "technique": "constructor-parameter flow + C3 MRO comparison + guard/return analysis + interval abstract interpretation of a slice bound",
+    },
+    "C11": {
+        "text": "In both rotator families (fit and transform) every product applying the rotation matrix to scores goes through the "
+        "inverse-conjugate-transpose helper, which inverts and conj-transposes for power > 1; the sort index is the reversed argsort of "
+        "exactly the stored importance (explained variance / squared covariance); _sort_by_variance covers every entry with a mode "
+        "dimension except the index; 'sorted' is reset before any result is stored, set after sorting, guards idempotence, transform "
+        "re-sorts iff sorted, sorting is reachable only via _post_compute behind the compute flag; modes_sign multiplies all members of "
+        "its factor group in fit and transform; pseudo-norms use N-1.",
+        "note": "Necessary structural clauses only. Not decided: unitarity of R, conserved variance sum, Varimax criterion, reconstruction "
+        "equality as numbers (the numerical core of _varimax/_promax is not analysed).",
+        "technique": "def-use provenance (pairing through a helper call), typestate of a flag over CFG dominators, loop-condition exhaustiveness, sibling agreement",
     },
     "C13": {
         "text": "For all 29+ serialisable model classes the key set of _params after the __init__ chain (abstractly interpreted: dict "
@@ -54,6 +76,26 @@ CLAIMS = {
         "note": "Necessary structural clauses only. Not decided: minimality of the threshold count as arithmetic on values, agreement of "
         "exact and randomised results, bit-identity as values. Trusted: table of solver seed keywords (sklearn/scipy/dask APIs).",
         "technique": "def-use provenance through dict merges and tuple unpacking, call-site parameter binding, match exhaustiveness, sibling cross-check of extracted facts",
+    },
+    "C16": {
+        "text": "For Whitener and PCA the fitted matrix, conjugation parity and transposition used by each of the four maps are extracted from "
+        "the single dot product of each map: the pattern map is the adjoint of the data map in both directions, forward/inverse use the "
+        "inverse pair (T/Tinv; V/V^H), forward maps contract the feature dimension and inverse maps the mode dimension; Tinv is computed "
+        "from T (inv and pinv fallback) and stored in the returned order; the exponent evaluates to (alpha-1)/2; the Gram matrix is X^H X and "
+        "the fractional power is rebuilt as V diag(s**p) V^H; the dimension check dominates every product in fit and transform.",
+        "note": "Necessary structural clauses only. Not decided: cov(whitened) = C**alpha numerically, Hermitian-ness, orthonormality, "
+        "conditioning. Identity branches are checked under C10.",
+        "technique": "adjoint typing of linear maps from provenance (matrix attribute, conjugation parity, transposition), small arithmetic evaluation of the exponent, dominators",
+    },
+    "C18": {
+        "text": "POP: ordering by the standard deviation of the coefficient series (second kernel output) along the sample dimension, descending, "
+        "full re-ordering coverage and the 'sorted' typestate incl. reset at fit; fit and transform obtain coefficients from one routine with "
+        "data and patterns both mapped into PC space and stored patterns mapped back; the kernel returns eigenvalues, -1/log|lambda| and "
+        "2*pi/arg(lambda) of the eigen-solver's values and fit stores each output under the matching name; the feedback matrix has the form "
+        "(lead^H lag)(lag^H lag)^-1 with conjugate transposes.",
+        "note": "Small structural part only. Not decided: the eigen-relation A p = lambda p, conjugate pairing, the coefficient formula "
+        "(Storch eq. 19), oscillator recovery - arithmetic on values.",
+        "technique": "def-use provenance through apply_ufunc kernels (output index to container key), typestate, matmul-chain shape",
     },
 }
 
